@@ -22,8 +22,9 @@ fn main() {
 /// Replace the update function of the given `variable` with a flattened version using only
 /// zero arity parameters.
 fn flatten_update_function(network: &mut BooleanNetwork, variable: VariableId) {
-    if network.regulators(variable).is_empty() {
-        // Skip zero-regulator variables.
+    if network.regulators(variable).is_empty() && network.get_update_function(variable).is_none() {
+        // Skip zero-regulator variables without an update function (they stay free inputs). A zero-regulator variable
+        // WITH an update function still has to be flattened: the function can mention parameters (`$a: k`, `$a: f(true)`).
         return;
     }
 
